@@ -20,7 +20,7 @@ ID = "C10"
 MODULE = "mc.checks.c10"
 BODIES = ["empty", "code", "comment-top", "shebang", "blank-led"]
 PREFIXES = ["spdx", "spdx-c", "spdx-string-c", "spdx-string", "spdx-string-symbol", "spdx-symbol", "string", "string-c", "string-symbol", "symbol"]
-YEAROPTS = {"year": ["--year", "2020"], "two-years": ["--year", "2019", "--year", "2021"], "exclude": ["--exclude-year"]}
+YEAROPTS = {"year": ["--year", "2020"], "two-years": ["--year", "2021", "--year", "2019"], "exclude": ["--exclude-year"]}
 MENU = {
     "holderA": ["--copyright", "Alice A", "--year", "2020"],
     "holderB-symbol": ["--copyright", "Bob B", "--copyright-prefix", "string-symbol", "--exclude-year"],
